@@ -9,8 +9,10 @@ whose statement it contradicts.
 """
 
 
-def item(bin, target, quick, thorough, param=0, max_len=None, ubonly=False):
+def item(bin, target, quick, thorough, param=0, max_len=None, ubonly=False, fuzz_runs=None):
     d = {"bin": bin, "target": target, "quick": quick, "thorough": thorough, "param": param}
+    # thorough tier: total number of libFuzzer (ASan) executions for this item, split over the cores
+    d["fuzz_runs"] = 4_000_000 if fuzz_runs is None else fuzz_runs
     if ubonly:
         d["ubonly"] = True  # C20 mode: only the memory-safety / wrap-arithmetic class of panics counts
     if max_len:
@@ -25,7 +27,7 @@ PLAN = {
     "C06": [
         item("h_stream", "ans_msg", 1_600_000, 48_000_000, param=6, max_len=(1024, 16384)),
         item("h_stream", "range_msg", 1_600_000, 48_000_000, param=6, max_len=(1024, 16384)),
-        item("h_model", "c06_golden", 2, 2),  # byte-exact vectors from the project's documentation (case bytes ignored)
+        item("h_model", "c06_golden", 2, 2, fuzz_runs=0),  # byte-exact vectors from the project's documentation (case bytes ignored)
     ],
     "C07": [
         item("h_stream", "c07_range", 1_600_000, 48_000_000, max_len=(1024, 8192)),
